@@ -11,7 +11,7 @@
     datalines start is followed at once by its data token and its terminator ([grp_okb], a decision
     procedure over the type sequence; corollary of the C11 simulation). *)
 From Coq Require Import NArith List Bool.
-From SasLexer Require Import Model.Core Model.Lexer3 Spec.RefLex Proofs.RefLexTiling Proofs.RefLexShape Proofs.OcBase Proofs.OcWhole Proofs.OcAll.
+From SasLexer Require Import Model.Core Model.Lexer3 Spec.RefLex Proofs.RefLexTiling Proofs.RefLexShape Proofs.OcBase Proofs.OcWhole Proofs.OcAll Proofs.MacroFree.
 From SasLexer Require Import Gen.TokenType Gen.ErrorKind Gen.Channel Model.Base Model.Core Model.Helpers Model.Lexer2 Proofs.Tables.
 Import ListNotations.
 
@@ -30,14 +30,7 @@ Proof. exact stat_preloads_end_in_semi. Qed.
 Theorem C10_macro_free_groups : forall (msep : bool) (src : list char),
   macro_free (body_of src) = true ->
   grp_okb (map t_type (b_toks (lr_buffer (lex (mkCfg false msep) src)))) = true.
-Proof.
-  intros msep src H. pose proof (lex_is_reflex_macro_free msep src H) as G. cbv zeta in G.
-  pose proof (reflex_shape src) as Sh.
-  destruct (reflex src) as [[T E] lit]. destruct G as (_ & _ & G3 & _). destruct Sh as [Hg _].
-  assert (K : map t_type (b_toks (lr_buffer (lex (mkCfg false msep) src))) = map rt_type T).
-  { pose proof (f_equal (map (fun x : TokenType * TokenChannel * N * payload => fst (fst (fst x)))) G3) as K. rewrite !map_map in K. exact K. }
-  rewrite K. exact Hg.
-Qed.
+Proof. exact mf_C10_macro_free_groups. Qed.
 Print Assumptions C10_macro_free_groups.
 
 (** what [grp_okb] decides, on examples *)
